@@ -556,7 +556,14 @@ pub fn pieces(e: &Expr, map: RefMap, out: &mut Vec<Piece>) {
             out.push(T(Tok::new(Kind::ArrayClose, "}", "array")));
         }
         Expr::Structured { table, spec } => {
-            let class = if spec[1..].contains('[') { "structured-nested" } else { "structured" };
+            let cell_like = parse_area(&table.to_ascii_uppercase()).is_some();
+            let class = if cell_like {
+                "structured-cell-like-table"
+            } else if spec[1..].contains('[') {
+                "structured-nested"
+            } else {
+                "structured"
+            };
             out.push(T(Tok::new(Kind::Structured, format!("{}{}", table, spec), class)))
         }
         Expr::At(e) => {
@@ -587,6 +594,12 @@ pub fn render(e: &Expr, blanks: &[u8]) -> String {
     let mut k = 0usize;
     for x in p {
         match x {
+            Piece::T(t) if t.kind == Kind::Intersect => {
+                // the intersection operator is a blank run of its own: plan entry 0 = one space
+                let run = blank_text(blanks.get(k).copied().unwrap_or(0));
+                k += 1;
+                s.push_str(if run.is_empty() { " " } else { &run });
+            }
             Piece::T(t) => {
                 s.push_str(&t.text);
                 if t.kind == Kind::Func {
@@ -594,7 +607,7 @@ pub fn render(e: &Expr, blanks: &[u8]) -> String {
                 }
             }
             Piece::BlankOpt => {
-                s.push_str(blank_text(blanks.get(k).copied().unwrap_or(0)));
+                s.push_str(&blank_text(blanks.get(k).copied().unwrap_or(0)));
                 k += 1;
             }
         }
@@ -602,16 +615,50 @@ pub fn render(e: &Expr, blanks: &[u8]) -> String {
     s
 }
 
-/// decorative blank codes: 0 none, 1-2 spaces, 3 line feed, 4 tab, 5 CR LF + indentation
-pub fn blank_text(code: u8) -> &'static str {
+/// blank codes: 0 none, 1-2 spaces, 3 line feed, 4 tab, 5 CR LF + indentation, >= 6 a run of
+/// 2..4 characters mixing space / LF / tab / CR (base-4 digits of the code)
+pub fn blank_text(code: u8) -> String {
     match code {
-        0 => "",
-        1 => " ",
-        2 => "  ",
-        3 => "\n",
-        4 => "\t",
-        _ => "\r\n  ",
+        0 => "".into(),
+        1 => " ".into(),
+        2 => "  ".into(),
+        3 => "\n".into(),
+        4 => "\t".into(),
+        5 => "\r\n  ".into(),
+        c => {
+            let v = (c - 6) as usize;
+            let len = 2 + v % 3;
+            let mut d = v / 3;
+            let mut out = String::new();
+            for _ in 0..len {
+                out.push([' ', '\n', '\t', '\r'][d % 4]);
+                d /= 4;
+            }
+            out
+        }
     }
+}
+
+/// (decorative codes used, intersection-operator codes used) of a rendering
+pub fn plan_usage(e: &Expr, blanks: &[u8]) -> (Vec<u8>, Vec<u8>) {
+    let mut p = Vec::new();
+    pieces(e, &identity_map, &mut p);
+    let (mut deco, mut inter) = (Vec::new(), Vec::new());
+    let mut k = 0usize;
+    for x in p {
+        match x {
+            Piece::T(t) if t.kind == Kind::Intersect => {
+                inter.push(blanks.get(k).copied().unwrap_or(0));
+                k += 1;
+            }
+            Piece::BlankOpt => {
+                deco.push(blanks.get(k).copied().unwrap_or(0));
+                k += 1;
+            }
+            _ => {}
+        }
+    }
+    (deco, inter)
 }
 
 pub fn render_plain(e: &Expr) -> String {
@@ -1386,6 +1433,10 @@ pub fn name_text() -> BoxedStrategy<String> {
         2 => "[A-Z][a-z]{3,6}[0-9]{1,4}".prop_map(|s| s),
         1 => "_[a-z]{2,6}".prop_map(|s| s),
         1 => "[a-z]{2,5}\\.[a-z]{2,5}".prop_map(|s| s),
+        // legal names that BEGIN like a cell: Q1.Sales, FY24.Rate, A1_total, h2.mass
+        2 => "[A-Z]{1,3}[0-9]{1,4}\\.[A-Za-z]{2,6}".prop_map(|s| s),
+        1 => "[A-Z]{1,3}[0-9]{1,4}_[a-z]{2,6}".prop_map(|s| s),
+        1 => prop::sample::select(vec!["Q1.Sales", "FY24.Rate", "H2.Mass", "h2.mass", "A1_total", "XFD1048576.x", "B2.c3"]).prop_map(|s| s.to_string()),
         1 => prop::sample::select(vec!["_xlnm.Print_Area", "_xlnm._FilterDatabase", "税率", "Größe", "my_name_1", "Rate.2024", "x_1"]).prop_map(|s| s.to_string()),
     ]
     .prop_map(|s| {
@@ -1409,7 +1460,12 @@ fn err_text() -> BoxedStrategy<String> {
 
 fn structured() -> BoxedStrategy<Expr> {
     (
-        prop_oneof![4 => "[A-Z][a-z]{3,6}[0-9]{0,1}".prop_map(|s| s), 1 => Just(String::new())],
+        prop_oneof![
+            4 => "[A-Z][a-z]{3,6}[0-9]{0,1}".prop_map(|s| s),
+            1 => Just(String::new()),
+            // table names that look like a cell
+            2 => prop::sample::select(vec!["Tbl1", "T1", "AB12", "Tab2", "tbl1"]).prop_map(|s| s.to_string()),
+        ],
         prop::sample::select(vec![
             "[Col]", "[#All]", "[#Headers]", "[#Data]", "[@Col]", "[Col A]", "[Amount2024]", "[@[Col A]]", "[[#This Row],[Col]]", "[[#All],[Col A]]",
             "[[Col1]:[Col2]]", "[[#Headers],[#Data],[Pct]]",
@@ -1511,6 +1567,7 @@ pub fn blank_plan() -> BoxedStrategy<Vec<u8>> {
         3 => Just(Vec::new()),
         2 => prop::collection::vec(prop_oneof![3 => Just(0u8), 2 => Just(1u8), 1 => Just(2u8)], 0..24),
         1 => prop::collection::vec(prop_oneof![4 => Just(0u8), 2 => Just(1u8), 2 => Just(3u8), 1 => Just(4u8), 1 => Just(5u8)], 0..24),
+        2 => prop::collection::vec(prop_oneof![3 => Just(0u8), 1 => Just(1u8), 1 => 3u8..=5, 4 => 6u8..=255], 0..24),
     ]
     .boxed()
 }
